@@ -1,4 +1,5 @@
 import logging
+import sys
 from io import BytesIO
 from typing import TYPE_CHECKING, BinaryIO, Optional, Union
 
@@ -84,6 +85,10 @@ class PDFParser(PSStackParser[Union[PSKeyword, PDFStream, PDFObjRef, None]]):
             if not self.fallback:
                 try:
                     objlen = int_value(dic["Length"])
+                    if objlen < 0 or objlen > sys.maxsize:
+                        # not a length: find the end by scanning for
+                        # `endstream` as if it were missing
+                        objlen = 0
                 except KeyError:
                     if settings.STRICT:
                         raise PDFSyntaxError("/Length is undefined: %r" % dic)
